@@ -100,6 +100,29 @@ type c12In struct {
 	// deadline
 	ParentMs int64 `json:"parent_ms,omitempty"` // -1: the caller's context has no deadline
 	RuntimeCtx bool `json:"runtime_ctx,omitempty"` // the caller's context is Runtime.Context, not ClientOperation.Context
+	KeepDefault bool `json:"keep_default,omitempty"` // deadline: the parameters never call SetTimeout, the request keeps client.DefaultTimeout
+	// call and deadline: the application has set the package variable client.DefaultTimeout to that many ms for the case
+	// (0: left at 30 s); restored afterwards. A request whose parameters do not call SetTimeout is bound by it.
+	DefaultMs int64 `json:"default_ms,omitempty"`
+}
+
+// the value of client.DefaultTimeout when the harness starts (30 s)
+var c12OrigDefault = client.DefaultTimeout
+
+// the default request timeout in force during the case
+func (in c12In) defaultTimeout() time.Duration {
+	if in.DefaultMs != 0 {
+		return time.Duration(in.DefaultMs) * time.Millisecond
+	}
+	return c12OrigDefault
+}
+
+// deadline cases: the request timeout in force (SetTimeout is called with timeout() unless KeepDefault)
+func (in c12In) deadlineTimeout() time.Duration {
+	if in.KeepDefault {
+		return in.defaultTimeout()
+	}
+	return in.timeout()
 }
 
 const c12ReaderNeeds = 100 // bytes the response reader of the harness reads
@@ -114,7 +137,7 @@ func (in c12In) effTimeout() time.Duration {
 	if in.setsTimeout() {
 		return in.timeout()
 	}
-	return client.DefaultTimeout
+	return in.defaultTimeout()
 }
 func (in c12In) unit() int {
 	if in.Unit <= 1 {
@@ -940,6 +963,9 @@ func c12RunDeadline(in c12In) c12Obs {
 		ID: "d", Method: "GET", PathPattern: "/d", ProducesMediaTypes: []string{"application/json"},
 		ConsumesMediaTypes: []string{"application/json"}, Schemes: []string{"http"},
 		Params: rt.ClientRequestWriterFunc(func(req rt.ClientRequest, _ strfmt.Registry) error {
+			if in.KeepDefault {
+				return nil
+			}
 			return req.SetTimeout(in.timeout())
 		}),
 		Reader: rt.ClientResponseReaderFunc(func(rt.ClientResponse, rt.Consumer) (interface{}, error) { return nil, nil }),
@@ -968,6 +994,10 @@ func c12RunDeadline(in c12In) c12Obs {
 
 func (c12) Run(inAny any) any {
 	in := inAny.(c12In)
+	if in.DefaultMs != 0 && (in.Kind == "call" || in.Kind == "deadline") {
+		client.DefaultTimeout = in.defaultTimeout()
+		defer func() { client.DefaultTimeout = c12OrigDefault }()
+	}
 	switch in.Kind {
 	case "drain":
 		return c12RunDrain(in)
@@ -999,7 +1029,7 @@ func (c12) Coq(inAny any, obsAny any) string {
 		if obs.HasDeadline {
 			observed = "(Some " + coqZ(obs.DeadlineNs) + ")"
 		}
-		return fmt.Sprintf("CDeadline %s %s %s %s %s", parent, coqZ(in.timeout().Nanoseconds()), coqZ(in.clientTimeout().Nanoseconds()), observed, coqZ(obs.DurationNs))
+		return fmt.Sprintf("CDeadline %s %s %s %s %s", parent, coqZ(in.deadlineTimeout().Nanoseconds()), coqZ(in.clientTimeout().Nanoseconds()), observed, coqZ(obs.DurationNs))
 	}
 	if in.Kind == "reuse" {
 		calls := make([]string, 0, len(in.Calls))
@@ -1150,12 +1180,26 @@ func (c12) Category(inAny any, obsAny any) (string, bool) {
 		}
 		t := "timeout"
 		switch d := in.timeout(); {
+		case in.KeepDefault:
+			t = "default-timeout-kept"
+		case d == in.defaultTimeout():
+			t = "timeout-equal-to-default"
 		case d == 0:
 			t = "notimeout"
 		case d < 0:
 			t = "negative-timeout"
 		case d < time.Millisecond:
 			t = "tiny-timeout"
+		}
+		if in.DefaultMs != 0 {
+			t += "(default-set-by-app)"
+		}
+		if in.ParentMs >= 0 && in.deadlineTimeout() > 0 {
+			if time.Duration(in.ParentMs)*time.Millisecond > in.deadlineTimeout() {
+				p += "-later"
+			} else {
+				p += "-sooner"
+			}
 		}
 		return "deadline/" + p + "/" + t + c12ClientClass(in), true
 	}
@@ -1265,7 +1309,7 @@ func c12ClientClass(in c12In) string {
 		return ""
 	}
 	c := []string{"", "/client-of-runtime", "/client-of-operation"}[in.ClientKind]
-	ct, rt := in.clientTimeout(), in.timeout()
+	ct, rt := in.clientTimeout(), in.deadlineTimeout()
 	if in.Kind == "call" {
 		rt = in.effTimeout()
 	}
@@ -1284,7 +1328,12 @@ func c12ClientClass(in c12In) string {
 // which bound ends a timed call
 func c12DeadlineClass(in c12In) string {
 	t := "default-timeout"
-	if in.setsTimeout() {
+	if in.DefaultMs != 0 {
+		t = "default-timeout-set-by-app"
+	}
+	if in.setsTimeout() && in.timeout() == in.defaultTimeout() {
+		t = "timeout-equal-to-default"
+	} else if in.setsTimeout() {
 		switch d := in.timeout(); {
 		case d == 0:
 			t = "no-timeout"
@@ -1301,6 +1350,9 @@ func c12DeadlineClass(in c12In) string {
 		t += "+parent-passed"
 	case in.CallParentMs > 0:
 		t += "+parent"
+		if e := in.effTimeout(); e > 0 && time.Duration(in.CallParentMs)*time.Millisecond > e {
+			t += "-later"
+		}
 	}
 	return t
 }
@@ -1310,19 +1362,26 @@ func c12DeadlineClass(in c12In) string {
 // request timeouts: none, negative (an already exhausted budget), tiny, ordinary (nanoseconds)
 var c12TimeoutsNs = []int64{0, -1, -1000, -1_000_000, -3600_000_000_000, 1, 1000, 1_000_000, 50_000_000, 3600_000_000_000, 9000_000_000_000}
 
-// bounds of a timed call: (timeout ns, SetTimeout called, caller deadline ms); each ends the call within about 60 ms
+// bounds of a timed call: (timeout ns, SetTimeout called, caller deadline ms, client.DefaultTimeout set by the application in ms
+// or 0); each ends the call within about 60 ms. From index 14 on: the DEFAULT timeout is what bounds the call (the parameters
+// never call SetTimeout, or set the very value of the default) - alone, with a caller deadline far later, a little later, sooner.
+// New entries go to the end: the enumeration names some by index.
 var c12TimedBounds = []struct {
 	ns     int64
 	set    bool
 	parent int64
+	def    int64
 }{
-	{-1, true, 0}, {-1_000_000, true, 0}, {-3600_000_000_000, true, 0}, {1, true, 0}, {1000, true, 0}, {30_000_000, true, 0}, {60_000_000, true, 0},
-	{0, true, 40}, {0, true, -5}, {0, false, 25}, {3600_000_000_000, true, 30}, {20_000_000, true, 3600_000}, {-1_000_000, true, 3600_000}, {1000, true, -3600_000},
+	{-1, true, 0, 0}, {-1_000_000, true, 0, 0}, {-3600_000_000_000, true, 0, 0}, {1, true, 0, 0}, {1000, true, 0, 0}, {30_000_000, true, 0, 0}, {60_000_000, true, 0, 0},
+	{0, true, 40, 0}, {0, true, -5, 0}, {0, false, 25, 0}, {3600_000_000_000, true, 30, 0}, {20_000_000, true, 3600_000, 0}, {-1_000_000, true, 3600_000, 0}, {1000, true, -3600_000, 0},
+	{0, false, 0, 40}, {0, false, 3600_000, 40}, {0, false, 4000, 30}, {40_000_000, true, 3600_000, 40}, {0, false, 20, 3600_000}, {0, false, 30, 50}, {50_000_000, true, 7200_000, 3600_000},
 }
+
+const c12FirstDefaultBound = 14
 
 func c12SetBound(in *c12In, k int) {
 	b := c12TimedBounds[k%len(c12TimedBounds)]
-	in.TimeoutMs, in.TimeoutNs, in.HasTimeout, in.CallParentMs = 0, b.ns, b.set, b.parent
+	in.TimeoutMs, in.TimeoutNs, in.HasTimeout, in.CallParentMs, in.DefaultMs = 0, b.ns, b.set, b.parent, b.def
 }
 
 func c12GenFiles(r *rand.Rand, allowFail bool) []c12File {
@@ -1390,6 +1449,24 @@ func (c12) Gen(r *rand.Rand, tier string, i int) any {
 			in.TimeoutNs = c12TimeoutsNs[r.Intn(len(c12TimeoutsNs))]
 		case 2: // any sign, any magnitude
 			in.TimeoutNs = (r.Int63n(2_000_000) - 1_000_000) * []int64{1, 1000, 1_000_000}[r.Intn(3)]
+		}
+		if r.Intn(3) == 0 { // the default timeout is what applies: never set, or set to the very value (or next to it); now and then the application has changed the default
+			if r.Intn(4) == 0 {
+				in.DefaultMs = []int64{50, 1000, 1800_000, 5400_000, 86400_000}[r.Intn(5)]
+			}
+			in.TimeoutMs, in.TimeoutNs = 0, 0
+			switch r.Intn(4) {
+			case 0:
+				in.TimeoutNs = in.defaultTimeout().Nanoseconds()
+			case 1:
+				in.TimeoutNs = in.defaultTimeout().Nanoseconds() + []int64{-1, 1, -1_000_000, 1_000_000}[r.Intn(4)]
+			default:
+				in.KeepDefault = true
+			}
+			if r.Intn(4) != 0 {
+				in.ParentMs = []int64{0, 1, 10_000, 29_999, 30_000, 30_001, 60_000, 3600_000, 7200_000, 86400_000}[r.Intn(10)]
+				in.RuntimeCtx = r.Intn(3) == 0
+			}
 		}
 		if r.Intn(2) == 0 { // an http.Client of the caller, with or without a Timeout of its own
 			in.ClientKind = 1 + r.Intn(2)
@@ -1706,6 +1783,38 @@ func (c12) Enumerate(tier string) []any {
 	}
 	out = append(out, c12EnumErrValues()...)
 	out = append(out, c12EnumReuse()...)
+	// the default request timeout (never set by the parameters, or set to its very value) against a caller deadline that is
+	// absent, passed, sooner, next to it, later, far later; the default left at 30 s or changed by the application
+	for _, def := range []int64{0, 50, 5400_000} {
+		d := c12In{DefaultMs: def}.defaultTimeout()
+		dms := d.Milliseconds()
+		for i, p := range []int64{-1, 0, dms / 2, dms - 1, dms, dms + 1, 2 * dms, 7200_000, 86400_000} {
+			for mode := 0; mode < 3; mode++ {
+				in := c12In{Kind: "deadline", ParentMs: p, DefaultMs: def, RuntimeCtx: p >= 0 && (i+mode)%2 == 0, Debug: (i+mode)%5 == 0}
+				switch mode {
+				case 0:
+					in.KeepDefault = true
+				case 1:
+					in.TimeoutNs = d.Nanoseconds()
+				default:
+					in.TimeoutNs = d.Nanoseconds() + 1
+				}
+				out = append(out, in)
+				if mode == 0 && i%2 == 0 {
+					in.ClientKind, in.ClientTimeoutMs = 1+i%2, []int64{0, 3600_000}[(i/2)%2]
+					out = append(out, in)
+				}
+			}
+		}
+	}
+	// a call bound by the default timeout (see c12TimedBounds) that stalls in the middle of the response body
+	for k := c12FirstDefaultBound; k < len(c12TimedBounds); k++ {
+		for _, at := range []int{0, 50} {
+			in := c12In{Kind: "call", Files: progs[0], Reads: -1, KeepAlive: k%2 == 0, Debug: at == 0 && k%3 == 0, RespSize: 130, RespFault: 3, RespFaultAt: at, ClientKind: k % 3}
+			c12SetBound(&in, k)
+			out = append(out, in)
+		}
+	}
 	for _, p := range []int64{-1, 0, 7200_000} {
 		for _, t := range c12TimeoutsNs {
 			out = append(out, c12In{Kind: "deadline", ParentMs: p, TimeoutNs: t})
